@@ -511,7 +511,10 @@ def parseActs? (s : String) : Option (List (Act Rat)) :=
 def playerTol : Rat := (ratOfBits 0x3E45798EE2308C3A).getD 0
 
 /-- `if tol is None: tol = self.tol` — only `None` is replaced by the default; an explicit `0`
-    (or any other value) stays what it is -/
+    (or any other value) stays what it is. After resolution the tolerance is a double
+    (`is_dominated` does `tol = float(tol)`; the other calls combine it with float64 payoffs): an
+    int / bool / float32 / float64 argument denotes the same number, which is what crosses the wire
+    (the exact rational of that double). -/
 def resolveTol (tol : Option Rat) : Rat :=
   match tol with
   | none => playerTol
